@@ -128,8 +128,13 @@ def spec_header(spec, shape):
 
 
 def write_spec_image(spec, path):
+    """spec['cube'] = k: the file is a k-plane cube whose FIRST plane is the image (the other planes hold something else);
+    every entry point of the finder is called without cube_index, which must then read the first plane (as BANE does)"""
     img = make_image(spec)
-    write_image(path, img, spec_header(spec, img.shape))
+    data = img
+    if spec.get('cube'):
+        data = np.stack([img] + [(-0.5 * img + 0.25 * k).astype(np.float32) for k in range(1, int(spec['cube']))])
+    write_image(path, data, spec_header(spec, img.shape))
     return img
 
 
